@@ -1,6 +1,7 @@
 \* C03 / Pipeline, CURRENT code: per-request rule swap as compiled (RuleModel = "words").
 \* TLC is expected to VIOLATE I2 here (DESIGN section 7 #3); the driver records the
 \* counterexample as a design-level finding and reproduces it statistically.
+\* Measured: I2 is violated after ~40-76 thousand distinct states, 4 s (full state space without invariants: 238 812 generated).
 SPECIFICATION MCSpec
 CONSTANTS
   Reqs = {1, 2}
